@@ -280,7 +280,7 @@ func c03Run(c *Ctx) {
 	}
 	rec()
 	// hand-written scoping programs (every mechanism in the property statement)
-	for _, src := range c03Handwritten() {
+	for _, src := range append(c03Handwritten(), c04DeepScopes()...) {
 		if c.Mine() {
 			c03Judge(c, &Case{Gen: "handwritten", Src: src})
 		}
